@@ -238,3 +238,10 @@ def load(yp, code, overwrite=False):
     from crosshair.tracers import NoTracing
     with NoTracing():
         yp.load_script_from_string(code, overwrite=overwrite)
+
+
+class DirectUnit:
+    """A unit that is decided without CrossHair (direct SMT queries, or native validation).
+    run() returns a result dict with at least 'verdict'."""
+    def run(self):
+        raise NotImplementedError
